@@ -711,22 +711,33 @@ def _param_fidelity(run, rng, vd, clone):
         run.count("param_fidelity:" + name)
         declared = [p for p in inspect.signature(cls.__init__).parameters if p not in ("self",)]
         reported = est.get_params(deep=False)
-        problems = []
+        # what decides is behaviour: the clone and the estimator rebuilt from get_params() must act exactly like the original.
+        # get_params() not reporting a parameter, or reporting something other than what the constructor was given, is recorded as
+        # the diagnosis of a behavioural difference, not as a violation of its own (a constructor may normalise its arguments).
+        diagnosis = []
         for key, value in params.items():
             if key not in reported:
-                problems.append("get_params() does not report constructor parameter %r" % key)
-            elif reported[key] is not value and not (np.isscalar(value) and reported[key] == value):
-                problems.append("get_params()[%r] is not the value given to the constructor" % key)
+                diagnosis.append("get_params() does not report constructor parameter %r" % key)
+            elif reported[key] is not value and not (np.isscalar(value) and np.isscalar(reported[key]) and type(reported[key]) is type(value) and reported[key] == value):
+                diagnosis.append("get_params()[%r] is not the object given to the constructor" % key)
         if any(p.startswith("*") or "kwargs" in p for p in declared) or not set(params) <= set(declared):
-            problems.append("constructor parameters %s are not named parameters of %s.__init__ (%s)" % (sorted(set(params) - set(declared)), name, declared))
-        if not problems:
-            ref = _outcome(lambda a: observe(est), None)
-            twins = {"clone": clone(cls(**params)), "rebuilt from get_params": cls(**cls(**params).get_params(deep=False))}
-            for label, twin in twins.items():
-                if _outcome(lambda a: observe(twin), None) != ref:
-                    problems.append("the %s twin behaves differently from the original" % label)
+            diagnosis.append("constructor parameters %s are not named parameters of %s.__init__ (%s)" % (sorted(set(params) - set(declared)), name, declared))
+        if diagnosis:
+            run.count("observed:get_params_not_verbatim:" + name)
+        problems = []
+        ref = _outcome(lambda a: observe(est), None)
+        makers = {"clone": lambda: clone(cls(**params)), "rebuilt from get_params": lambda: cls(**cls(**params).get_params(deep=False))}
+        for label, make in makers.items():
+            try:
+                twin = make()
+            except Exception as exc:  # noqa: BLE001
+                problems.append("the %s twin cannot be built: %r" % (label, exc))
+                continue
+            if _outcome(lambda a: observe(twin), None) != ref:
+                problems.append("the %s twin behaves differently from the original" % label)
         for problem in problems:
-            run.violation("param_fidelity", "%s(%s): %s" % (name, ", ".join(sorted(params)), problem), {"class": name, "parameters": repr(params)[:400]}, key="param-fidelity:" + name)
+            run.violation("param_fidelity", "%s(%s): %s%s" % (name, ", ".join(sorted(params)), problem, (" [" + "; ".join(diagnosis) + "]") if diagnosis else ""),
+                          {"class": name, "parameters": repr(params)[:400], "diagnosis": diagnosis}, key="param-fidelity:" + name)
 
 
 def _reconfigure(run, rng, vd):
